@@ -87,7 +87,7 @@ def integral_matching_reference_stretch(x, y, x_ref, y_ref, fixed_points_in_x=No
     >>> integral_matching_reference_stretch(x, y, x_ref, y_ref, reference_function_integral_method='trapezoid', s=0.0)
     array([1. , 3.5, 2. , 4. , 3. , 4. , 4. ])
     """
-    x, y, x_ref, y_ref = np.asarray(x), np.asarray(y), np.asarray(x_ref), np.asarray(y_ref)
+    x, y, x_ref, y_ref = (np.asarray(v, dtype=float) for v in (x, y, x_ref, y_ref))
 
     for integral_method in (target_function_integral_method, reference_function_integral_method):
         if integral_method not in ('trapezoid', 'rectangle'):
